@@ -187,7 +187,7 @@ func init() {
 		"stateCount":        func(parent chainnodeAlias) Node { return parent.StateCount(nil) },
 		"shift":             func(parent chainnodeAlias) Node { return parent.Shift(0) },
 		"sideload":          func(parent chainnodeAlias) Node { return parent.Sideload() },
-		"sample":            func(parent chainnodeAlias) Node { return parent.Sample(0) },
+		"sample":            func(parent chainnodeAlias) Node { return parent.Sample(int64(0)) },
 		"log":               func(parent chainnodeAlias) Node { return parent.Log() },
 		"kapacitorLoopback": func(parent chainnodeAlias) Node { return parent.KapacitorLoopback() },
 		"k8sAutoscale":      func(parent chainnodeAlias) Node { return parent.K8sAutoscale() },
